@@ -85,6 +85,9 @@ def gen_values(rng, schema, nrows, extreme_codes=False, npout=None):
                     elif 'sigmavM' in name:
                         # Min^2 + Max^2 <= 1 so that the radicand of sigmavMid is non-negative
                         v = 125 * rng.choice([0, 16, 64, 96, 128, 160])
+                    elif '_to_sigmav3d_' in name:
+                        # few significant bits: code/32000 * sigmav3d * VelZSpace_to_kms must stay exact in float32
+                        v = 125 * rng.choice([-256, -160, -96, 0, 16, 64, 96, 128, 160, 256])
                     else:
                         v = 125 * rng.choice([-256, -255, -128, -3, 0, 1, 2, 77, 128, 200, 255, 256])
                 elif dt == 'uint16':
